@@ -34,6 +34,7 @@ from pathlib import Path
 
 import engine
 import c13_scen
+import c13_gridfile
 from wire import enc, err, ulps, dec
 
 PID = "C13"
@@ -261,6 +262,8 @@ def gen_cases(tier, seed):
             sc["components"]["grid_connectors"]["GC2"] = {"max_power": 10, "cost": {"type": "fixed", "value": 1}}
         yield {"k": "gen", "scenario": sc, "grid": "\n".join(lines), "individual": rnd.random() < 0.5,
                "cst": cst, "tags": tags + gtags + ["malformed_" + how], "bad": 1}
+    # text handling of util.read_grid_file / util.sanitize (exact stream, harness/c13_gridfile.py)
+    yield from c13_gridfile.gen_cases(tier, seed)
 
 
 # ------------------------------------------------------------------------------------------
@@ -357,6 +360,8 @@ def eval_case(case):
     k = case["k"]
     if k == "round":
         return eval_round(case)
+    if k in c13_gridfile.KINDS:
+        return c13_gridfile.eval_case(case)
     # watchdog: a run that does not return is a harness error (exit 2), never a violation
     old = signal.signal(signal.SIGALRM, _on_alarm)
     signal.alarm(int(os.environ.get("VERIF_CASE_TIMEOUT_S", "60")))
@@ -837,6 +842,8 @@ def _is_zero_tok(t):
 def compare(case, impl, model):
     if impl == model:
         return None
+    if case["k"] in c13_gridfile.KINDS:
+        return c13_gridfile.compare(case, impl, model)
     if case.get("bad"):
         # malformed stream: error kinds only
         if impl.startswith("!") or model.startswith("!"):
